@@ -32,7 +32,8 @@ AS_LOOP = [
     'environment: the clock is monotonic (needed only to read "the wait is next_wakeup - now" as "at most delay_ms after the firing")',
     'Mapper::step is a deterministic function of the mapper state and the event (safe Rust, no interior mutability): "the mapper\'s outputs for that sequence" are the values returned by the one mapper that is fed exactly the delivered events',
     'the layout satisfies layout_ok (C14 shows that the loader only accepts such layouts)',
-    'the function is intentionally non-terminating (exec_allows_no_decreases_clause on do_remapping_loop_one_device only)',
+    'the function is intentionally non-terminating (exec_allows_no_decreases_clause on do_remapping_loop_one_device only); the two inner drain loops DO carry a termination measure',
+    'environment (finite bursts): between two notifications a device hands out finitely many events before it answers Busy (ghost measures kb_left / tab_left of the Driver contract); used only for the termination measure of the drain loops, which is what rejects a loop that keeps reading a device after it has answered Busy',
 ]
 
 TB_CONV = TB_COMMON + [
